@@ -7,7 +7,7 @@ Mirrors, at the granularity of the code's critical sections / channel operations
 * `queuebatch/queue_batch.go` `Shutdown` (`queue.Shutdown` — which joins the consumers — then `batcher.Shutdown`),
 * `queuebatch/async_queue.go` (consumer loop `Read` → `consumeFunc`; `Shutdown` = stop + `stopWG.Wait`),
 * `queuebatch/memory_queue.go` `Read` (keeps serving queued items after stop, returns `false` only when stopped AND empty;
-  `Offer` after stop still enqueues) and `queuebatch/persistent_queue.go` `Read` (returns `false` as soon as stopped; items
+  `Offer` after stop is refused — repaired code) and `queuebatch/persistent_queue.go` `Read` (returns `false` as soon as stopped; items
   stay in storage; `onDone` with a shutdown error keeps the item stored),
 * `queuebatch/disabled_batcher.go` (consumer calls the export chain itself) and `queuebatch/default_batcher.go`
   (`Consume` critical section = merge with the current batch and re-partition; `flush` = `stopWG.Add`, take a worker slot, `go`;
@@ -171,6 +171,9 @@ def allDoneOrOwned (fs : List Flight) : Bool := fs.all (fun fl => fl.owner.isSom
 
 def fire (s : State) : Label → Option State
   | .offer b =>
+    -- memory_queue.add refuses once the queue is stopped (`errQueueIsStopped`; the refusal is counted enqueue-failed by obsQueue);
+    -- a persistent queue keeps accepting (and storing) until its storage client is closed
+    if s.cfg.persistent = false ∧ 2 ≤ s.phase then none else
     some { s with
       queue := s.queue ++ [(b, decide (1 ≤ s.phase))]
       accepted := s.accepted ++ b
